@@ -151,6 +151,8 @@ class BaseNode(Node):
             value.unit = node.units_raw
             value.convert(self.units_raw, env)
         if value.value is None:  # explicitly assigned none
+            if isinstance(value, (IntegerType, FloatType)):
+                value.unit = self.units_raw
             self.value = value
         else:
             self.set_value(value.value)
